@@ -463,7 +463,7 @@ pub fn property() -> Property {
         id: "C01",
         run,
         budget: |t| match t {
-            Tier::Quick => 1500,
+            Tier::Quick => 3000,
             Tier::Thorough => 150_000,
         },
         wall_cap_s: |t| match t {
